@@ -12,6 +12,7 @@ from ..prng import sub
 from .c01 import draw_fmt, fmt_tag
 
 ID = "C08"
+PROBES = ['first_session_changed_files']  # reach probes: counters that must be non-zero in a run (a zero is printed and recorded)
 LEVEL = "exploration"
 BUDGET = {"quick": 1200, "thorough": 40000}
 WALL = {"quick": 240, "thorough": 3000}
